@@ -2,6 +2,7 @@
 // one call per line; observation = return value, the events the registered hooks received during the call,
 // and (for most calls) the canonical settings line.
 #include "access.hpp"
+#include <unistd.h>
 #include <cmath>
 #include <map>
 #include <sys/resource.h>
@@ -291,6 +292,21 @@ int comp_api()
             free(blk);
         }
         else if(o == "openfile" && w.size() == 2) ret << opn2_openFile(dev, w[1].c_str());
+        else if(o == "openfiledata" && w.size() == 2)
+        {
+            // the same bytes through the FILE-based reader (seeks behind the end are not clamped there)
+            std::vector<uint8_t> img;
+            if(!parseHex(w[1], img)) { std::cout << "bad-op\n" << std::flush; continue; }
+            const char *dir = getenv("VERIF_TMPDIR");
+            std::string path = std::string(dir && *dir ? dir : "/tmp") + "/opnharness-" + std::to_string((long)getpid()) + ".bin";
+            FILE *f = fopen(path.c_str(), "wb");
+            if(!f) { std::cout << "ret=nofile\n" << std::flush; continue; }
+            if(!img.empty()) fwrite(img.data(), 1, img.size(), f);
+            fclose(f);
+            log.now = 0; log.frames = 0;
+            ret << opn2_openFile(dev, path.c_str());
+            remove(path.c_str());
+        }
         else if(o == "openbankfile" && w.size() == 2) ret << opn2_openBankFile(dev, w[1].c_str());
         else if(o == "getbank" && a.size() == 4)
         {
